@@ -4,9 +4,63 @@ from ..ctx import Ctx
 from . import c04
 
 
+BLOCKMAP = {"block-quote": "bq", "ulist": "list", "olist": "list", "li": "item", "para": "para", "atx": "heading", "setext": "heading",
+            "fcode-block": "code", "icode-block": "code", "tbreak": "hr", "html-block": "html"}
+
+
+def _model_positions(node, out, first_item=False):
+    t = node["t"]
+    if t != "doc" and not (t == "item" and first_item):
+        out.append((t, node["ln"], node["col"]))
+    first = True
+    for k in node["kids"]:
+        _model_positions(k, out, first_item=(t == "list" and first))
+        first = False
+
+
+def _model_one(item):
+    """positions of the block tokens against the opener positions of the MdBlocks nodes (same structure, no tabs)"""
+    from .. import canon
+    text, rec = item
+    if "\t" in text:
+        return None
+    r = impl.parse(text, timeout=3)
+    if isinstance(r, tuple) and r and r[0] == "EXC":
+        return None
+    try:
+        if canon.freeze(canon.from_html(impl.to_html(r))) != canon.freeze(canon.from_model(rec["tree"])):
+            return None                       # structure not agreed: C03's business
+    except Exception:  # pylint: disable=broad-except
+        return None
+    want = []
+    _model_positions(rec["tree"], want)
+    loose = [t.token_name in ("icode-block", "html-block") for t in r if t.token_name in BLOCKMAP and not t.is_end_token]
+    got = [(BLOCKMAP[t.token_name],) + ((t.original_line_number, t.original_column_number) if t.token_name == "setext" else (t.line_number, t.column_number))
+           for t in r if t.token_name in BLOCKMAP and not t.is_end_token]
+    if [w[0] for w in want] != [g[0] for g in got]:
+        return ("sequence", want, got)
+    for w, g, lo in zip(want, got, loose):
+        # indented code and HTML blocks start where the container's content area starts, before the indentation
+        if (w[:2] != g[:2] or g[2] > w[2]) if lo else (w != g):
+            return ("position", w, g)
+    return ("ok", len(want), None)
+
+
 def run(pid, tier):
     ctx = Ctx(pid, tier, "model_checking")
     keep, traces, verdicts = c04.collect(ctx, tier, "pos")
+    # ---- second oracle: the opener positions the block model assigns
+    from .. import docspace
+    md = docspace.model_docs(ctx, tier)
+    mres = impl.pmap(_model_one, md, procs=16, chunksize=200)
+    compared = 0
+    for (text, rec), o in zip(md, mres):
+        if o is None:
+            continue
+        compared += 1
+        if o[0] == "position":
+            ctx.violation("model-position:%s :: %s" % (o[1][0], psweep.doc_shape(text)), {"document": text, "model": o[1], "implementation": o[2]})
+    ctx.ev.parts["documents_compared_with_model_positions"] = compared
     nontriv = 0
     for ((name, text), evs), v in zip(keep, verdicts):
         if sum(1 for e in evs if e["pos"]) > 1:
